@@ -16,3 +16,12 @@ func Workers() int {
 	}
 	return n
 }
+
+func allStacks() []byte {
+	buf := make([]byte, 256<<10)
+	n := runtime.Stack(buf, true)
+	if n > 60000 {
+		n = 60000
+	}
+	return buf[:n]
+}
